@@ -16,14 +16,16 @@ type nativeCase struct {
 	Harness string   `json:"harness"`
 	Args    []int64  `json:"args"`
 	Nondet  []uint64 `json:"nondet"`
+	Twin    bool     `json:"twin"`
 }
 
 type nativeResult struct {
-	ID      int      `json:"id"`
-	Outcome string   `json:"outcome"`
-	Detail  string   `json:"detail"`
-	Obs     []string `json:"obs"`
-	Covers  []string `json:"covers"`
+	ID       int      `json:"id"`
+	Outcome  string   `json:"outcome"`
+	Detail   string   `json:"detail"`
+	Obs      []string `json:"obs"`
+	Covers   []string `json:"covers"`
+	TwinDiff bool     `json:"twin_diff"`
 }
 
 // runNative executes the cases against the real build with `go test -overlay`.
